@@ -323,17 +323,22 @@ theorem documented_names_convert_trafficLight (merge : Bool) (task : String) (t 
       exact convert_of_row hmem (doc_names_lowercase Gen.docTrafficLightClassification (by simp) p hp)
         (documented_rows_trafficLight.2 p hp hne) s hs
 
-/-- the exact deviation on the excepted rows (finding candidate C14-D1): the documented names are not registered, the
-code answers `UNKNOWN` for them; for classification the documented label is not even a member of `TrafficLightLabel`,
-while the names the code does register for these members convert as expected -/
+/-- the excepted rows (finding candidate C14-D1) are pinned from both sides, and the statement stays true when the
+discrepancy is REPAIRED: for each excepted row either the documented name is not registered and the code answers
+`UNKNOWN` (the unchanged tree: "row absent from the code"), or the code gives exactly the documented label ("row present
+with the documented label": the code was moved towards the document).  Never a third label; and the documented label
+of an excepted row is never `UNKNOWN` itself, so the two cases are distinguishable.  Inputs: the regenerated
+`Gen.trafficLightPairs*` (code) — the rows themselves are the two definitions above.  The names the code registers
+today for these members (`red_straight_left` / `red_straight_right`) are covered by `canonical_roundtrip_trafficLight`
+and `registered_names_documented` / `undocumented_lists_exact`, not pinned here. -/
 theorem doc_exceptions_exact :
-    (∀ p ∈ docExceptionsOther, convertLabel Gen.trafficLightPairsOther p.1 = "UNKNOWN" ∧ p.2 ≠ "UNKNOWN") ∧
-    (∀ p ∈ docExceptionsClassification, convertLabel Gen.trafficLightPairsClassification p.1 = "UNKNOWN" ∧
-      p.2 ∉ Gen.trafficLightLabel.map (·.1)) ∧
-    convertLabel Gen.trafficLightPairsClassification "red_straight_left" = "RED_STRAIGHT_LEFT" ∧
-    convertLabel Gen.trafficLightPairsClassification "red_straight_right" = "RED_STRAIGHT_RIGHT" ∧
-    convertLabel Gen.trafficLightPairsOther "red_straight_left" = "TRAFFIC_LIGHT" ∧
-    convertLabel Gen.trafficLightPairsOther "red_straight_right" = "TRAFFIC_LIGHT" := by decide +kernel
+    (∀ p ∈ docExceptionsOther, p.2 ≠ "UNKNOWN" ∧
+      ((p.1 ∉ regNames Gen.trafficLightPairsOther ∧ convertLabel Gen.trafficLightPairsOther p.1 = "UNKNOWN") ∨
+       convertLabel Gen.trafficLightPairsOther p.1 = p.2)) ∧
+    (∀ p ∈ docExceptionsClassification, p.2 ≠ "UNKNOWN" ∧
+      ((p.1 ∉ regNames Gen.trafficLightPairsClassification ∧
+          convertLabel Gen.trafficLightPairsClassification p.1 = "UNKNOWN") ∨
+       convertLabel Gen.trafficLightPairsClassification p.1 = p.2)) := by decide +kernel
 
 /-- the converse direction: every registered (label, name) of the code's tables is a row of the document with that
 same label, or its name is in the regenerated list of names the document does not mention -/
